@@ -560,7 +560,8 @@ impl Locale {
         #[allow(clippy::type_complexity)]
         let mut possible_plurals: BTreeMap<
             String,
-            BTreeMap<PluralForm, (Key, PluralRuleType, ParsedValue)>,
+            // cardinal and ordinal forms must not share a slot, or one would silently replace the other.
+            BTreeMap<(bool, PluralForm), (Key, PluralRuleType, ParsedValue)>,
         > = BTreeMap::new();
         for (key, mut value) in keys {
             if let ParsedValue::Subkeys(Some(subkeys)) = &mut value {
@@ -571,7 +572,8 @@ impl Locale {
             if let Some((base_key, rule_type, plural_form)) = Self::is_possible_plural(&key, &value)
             {
                 let map = possible_plurals.entry(base_key.to_owned()).or_default();
-                map.insert(plural_form, (key, rule_type, value));
+                let is_ordinal = matches!(rule_type, PluralRuleType::Ordinal);
+                map.insert((is_ordinal, plural_form), (key, rule_type, value));
             } else {
                 self.keys.insert(key, value);
             }
@@ -583,7 +585,10 @@ impl Locale {
                 }
                 continue;
             }
-            let Some((_, rule_type, other)) = plurals.remove(&PluralForm::Other) else {
+            let other = plurals
+                .remove(&(false, PluralForm::Other))
+                .or_else(|| plurals.remove(&(true, PluralForm::Other)));
+            let Some((_, rule_type, other)) = other else {
                 for (_, (key, _, value)) in plurals {
                     self.keys.insert(key, value);
                 }
@@ -602,7 +607,7 @@ impl Locale {
 
             let forms = plurals
                 .into_iter()
-                .map(|(form, (_, rule, value))| {
+                .map(|((_, form), (_, rule, value))| {
                     if rule == rule_type {
                         Ok((form, value))
                     } else {
